@@ -79,6 +79,7 @@ pub fn product_cfg(name: &str, g: &GrammarSpec, bnf: &Bnf, f: &Factory, vocab: &
     queue.push_back(N { m: root, c: c0, hist: vec![], bytes: 0 });
     let mut truncated = false;
     while let Some(mut n) = queue.pop_front() {
+        crate::watchdog::beat();
         out.states += 1;
         out.max_depth = out.max_depth.max(n.bytes);
         if n.m.is_error() {
